@@ -172,6 +172,7 @@ impl Prop for C16 {
             }
             scn.runs.push(r2);
         }
+        super::dress(&mut scn, rng, true);
         h.check(&mut scn)?;
         // a block that cannot be read in the middle of the range: the lines of the blocks processed before
         // it must have been printed (and nothing else), the run fails
